@@ -26,7 +26,8 @@ RULE = ("scenario = (program with an async contracted function (gated preconditi
         "postcondition / invariant broken); context-inheritance mode in {fresh context per task, context copied before "
         "the parent's first checked call, context copied AFTER the parent's first checked call, copy_context().run in a "
         "worker thread, context copied while the parent is suspended in the body of a checked function and of a public "
-        "method of the shared object}; driver in {emulated asyncio tasks, real threads with sync functions}). ALL interleavings of "
+        "method of the shared object}; driver in {emulated asyncio tasks, real threads with sync functions - these are "
+        "also switched inside the invariant's condition and in an argument's __repr__}). ALL interleavings of "
         "the tasks' gate-to-gate segments are enumerated for 2 tasks (up to 4 segments each) and 3 tasks (2..3 "
         "segments each); Hypothesis draws the scenarios. Oracle: the verdict of every call (returned token / identity "
         "or class of the error and the contract it belongs to) under the schedule equals the verdict of the same call "
@@ -294,7 +295,8 @@ def run_thread_schedule(loaded, names, mode, schedule):
                     go_ev[ti].clear()
                 return hook
 
-            for key in (("cond", 1), ("cond", 2), ("cond", 3), ("cond", 4), ("cond", 6), ("cap", 1), ("body", "f0"),
+            # threads can also be switched INSIDE an invariant's condition (it is synchronous: no switch point for tasks)
+            for key in (("cond", 1), ("cond", 2), ("cond", 3), ("cond", 4), ("cond", 5), ("cond", 6), ("cap", 1), ("body", "f0"),
                         ("body", "K0.m"), ("body", "K0.n")):
                 run.hooks[key] = gate_hook(None)
 
@@ -440,6 +442,14 @@ SEGMENTS = {"f0:ok": 5, "f0:pre": 3, "f0:pre6": 2, "f0:post": 5, "m:ok": 3, "m:p
             "new": 1, "new:inv": 1}
 
 
+# threads are also switched inside the (synchronous) invariant: one more segment per evaluation
+SEGMENTS_THREADS = dict(SEGMENTS, **{"m:ok": 5, "m:pre": 3, "m:inv": 2, "n:ok": 5, "n:post": 5, "n1:post": 5, "new": 2, "new:inv": 2})
+
+
+def segments(name, is_async):
+    return (SEGMENTS if is_async else SEGMENTS_THREADS)[name]
+
+
 @st.composite
 def st_scenario(draw):
     n = draw(st.integers(2, 3))
@@ -456,13 +466,15 @@ FIXED = [
     (["f0:pre", "f0:pre"], False), (["f0:pre6", "f0:pre6"], False), (["f0:post", "f0:ok"], True), (["f0:ok", "f0:post"], True),
     (["m:ok", "n:post"], True), (["m:inv", "n:ok"], True), (["m:ok", "m:pre"], True), (["n:ok", "n1:post"], True),
     (["new:inv", "m:ok"], True), (["f0:ok", "f0:pre"], False), (["m:ok", "n:post"], False), (["f0:post", "f0:ok"], False),
+    # one thread is inside the invariant's condition (of the same or of another object) when the other one's is due
+    (["m:ok", "m:inv"], False), (["n1:post", "m:inv"], False), (["new", "m:inv"], False), (["m:ok", "new:inv"], False),
 ]
 
 
 def run(ctx, tier, seed, shard, nshards):
     # (1) fixed scenarios x all modes x ALL interleavings
     for names, is_async in FIXED:
-        counts = [SEGMENTS[n] for n in names]
+        counts = [segments(n, is_async) for n in names]
         for mode in MODES:
             if not is_async and mode in ASYNC_ONLY_MODES:
                 continue
@@ -478,7 +490,7 @@ def run(ctx, tier, seed, shard, nshards):
     @given(st_scenario(), st.data())
     def test(sc, data):
         names, mode, is_async = sc
-        counts = [SEGMENTS[x] for x in names]
+        counts = [segments(x, is_async) for x in names]
         alls = interleavings([min(c, 3) for c in counts]) if len(names) == 2 else None
         if alls is None or len(alls) > 80:
             total = sum(counts)
